@@ -85,6 +85,20 @@ def generate(rng, tier):
                           'gb.w %d %d %d' % (inst, r2.choice([0xff14, 0xff19, 0xff1e, 0xff23, 0xff25, 0xff24]), r2.randrange(256))]
             lines += ['gb.obs %d' % inst]
         cases.append(('sound%d' % i, lines))
+    # key events on one button in quick succession (frames take well under a millisecond of host time): every one counts
+    for i in range(3 if tier == 'quick' else 20):
+        import random as _r
+        seed = rng.randrange(1 << 30)
+        lines = []
+        for inst in (0, 1):
+            r2 = _r.Random(seed)
+            lines += ['gb.newloop %d 0 0 0' % inst]
+            for _ in range(14):
+                b = r2.choice([0, 1, 4, 6])
+                lines += ['gb.btn %d %d %d' % (inst, b, r2.randrange(2)), 'gb.frames %d %d' % (inst, r2.choice([0, 0, 1, 1, 2])),
+                          'gb.w %d 65280 %d' % (inst, r2.choice([0x10, 0x20])), 'gb.r %d 65280' % inst]
+            lines += ['gb.obs %d' % inst]
+        cases.append(('chatter%d' % i, lines))
     # several enabled interrupts requested at once: the order of service is part of the trace (IF after each dispatch)
     for i in range(6 if tier == 'quick' else 40):
         import random as _r
